@@ -16,7 +16,10 @@ import json
 import os
 import random
 
-import numpy as np
+for _v in ("OMP_NUM_THREADS", "OPENBLAS_NUM_THREADS", "MKL_NUM_THREADS"):
+    os.environ.setdefault(_v, "1")      # tiny matrices: BLAS threads only add overhead
+
+import numpy as np  # noqa: E402
 
 from . import framework as fw
 from .framework import rat
@@ -62,21 +65,29 @@ def dec_sum(s_l, d_l, m):
 class Probe:
     """shared state of the wrappers around the user callables of one object"""
 
-    def __init__(self, at=None, base=False):
+    def __init__(self, at=None, base=False, bath=None):
         self.at = at            # raw call index that raises (once)
         self.base = base        # raise a BaseException that is not an Exception
+        # which user functions are counted / made to fail: the system's (Hamiltonian, rates,
+        # Lindblad operators, field equation) or the bath's (correlation function "corr" /
+        # spectral density "sd")
+        self.bath = bath
+        self.channel = "bath" if bath else "system"
+        self.in_init = False    # inside backend.initialize_mps_mpo()
+        self.fired_in_init = False
         self.raw = 0            # raw user-function calls so far (armed only)
         self.armed = False
         self.trace = []         # micro-level invocations: (callable id, step argument)
         self.fired_inv = None   # micro-level invocation during which the fault fired
 
-    def wrap_raw(self, f):
+    def wrap_raw(self, f, channel="system"):
         def g(*a):
-            if self.armed:
+            if self.armed and channel == self.channel:
                 k = self.raw
                 self.raw += 1
                 if k == self.at:
                     self.fired_inv = len(self.trace) - 1
+                    self.fired_in_init = self.in_init
                     raise (Abort if self.base else Fault)(
                         "transient failure of user callable (raw call %d)" % k)
             return f(*a)
@@ -87,6 +98,46 @@ class Probe:
             self.trace.append((cid, int(step)))
             return f(step, *a)
         return g
+
+    def wrap_backend(self, backend):
+        """user callable 9: the influence functions (they evaluate the bath correlations); the
+        evaluations made while the networks are first built are not part of a step"""
+        infl, init = backend._influence, backend.initialize_mps_mpo
+
+        def influence(dk):
+            if not self.in_init:
+                self.trace.append((9, 0))
+            return infl(dk)
+
+        def initialize_mps_mpo():
+            self.in_init = True
+            try:
+                return init()
+            finally:
+                self.in_init = False
+        backend._influence = influence
+        backend.initialize_mps_mpo = initialize_mps_mpo
+
+
+def corr_function(t):
+    return (np.cos(6.0 * t) + 1j * np.sin(6.0 * t)) * np.exp(-12.0 * t)
+
+
+def make_bath(probe, coupling=None):
+    """the shared cheap bath, or a fresh one whose user function is wrapped by the probe (its
+    integrals are memoised per correlations object, so a fresh object evaluates them anew)"""
+    import oqupy
+    from oqupy import operators as op
+    from . import oq
+    if coupling is None:
+        coupling = 0.5 * op.sigma("z")
+    if probe.bath == "corr":
+        return oqupy.Bath(coupling, oqupy.CustomCorrelations(probe.wrap_raw(corr_function, "bath")))
+    if probe.bath == "sd":
+        jf = probe.wrap_raw(lambda w: 0.3 * w * np.exp(-w / 4.0), "bath")
+        return oqupy.Bath(coupling, oqupy.CustomSD(jf, cutoff=20.0, cutoff_type="hard",
+                                                   temperature=0.5))
+    return oq.cheap_bath(coupling)
 
 
 def make_tempo(s, d, probe, variant=0, dkmax=2):
@@ -102,10 +153,11 @@ def make_tempo(s, d, probe, variant=0, dkmax=2):
     subdiv = 256 if variant == 2 else None
     par = oqupy.TempoParameters(dt=d, epsrel=1e-4, subdiv_limit=subdiv,
                                 **memory_regime(variant, dkmax))
-    obj = oqupy.Tempo(system=system, bath=oq.cheap_bath(), parameters=par,
+    obj = oqupy.Tempo(system=system, bath=make_bath(probe), parameters=par,
                       initial_state=op.spin_dm("z+"), start_time=s)
     b = obj._backend_instance
     b._propagators = probe.wrap_micro(0, b._propagators)
+    probe.wrap_backend(b)
     probe.armed = True
     return obj
 
@@ -123,13 +175,15 @@ def make_mft(s, d, probe, variant=0, dkmax=2):
     subdiv = 256 if variant == 2 else None
     par = oqupy.TempoParameters(dt=d, epsrel=1e-4, subdiv_limit=subdiv,
                                 **memory_regime(variant, dkmax))
-    obj = oqupy.MeanFieldTempo(mean_field_system=mfs, bath_list=[oq.cheap_bath()],
+    obj = oqupy.MeanFieldTempo(mean_field_system=mfs, bath_list=[make_bath(probe)],
                                initial_state_list=[op.spin_dm("z+")], initial_field=1.0 + 0.5j,
                                start_time=s, parameters=par)
     b = obj._backend_instance
     b._compute_field_derivative = probe.wrap_micro(0, b._compute_field_derivative)
     b._propagators_list = [probe.wrap_micro(1, p) for p in b._propagators_list]
     b._compute_field = probe.wrap_micro(2, b._compute_field)
+    for sub in b._backend_list:
+        probe.wrap_backend(sub)
     probe.armed = True
     return obj
 
@@ -199,12 +253,12 @@ def read_like_a_user(api, dyn):
         len(dyn)
 
 
-def run_history(api, s, d, ops, at=None, variant=0, base=False, progress="silent"):
+def run_history(api, s, d, ops, at=None, variant=0, base=False, progress="silent", bath=None):
     """ops: list of ('c', end_time) | ('g',).  'g' = get_dynamics() and reading its results the
     way a user does.  Returns the observable record."""
     import contextlib
     import io
-    probe = Probe(at, base)
+    probe = Probe(at, base, bath)
     obj = MAKERS[api](s, d, probe, variant)
     oks, internal = "", None
     dyn_ids = set()
@@ -229,21 +283,23 @@ def run_history(api, s, d, ops, at=None, variant=0, base=False, progress="silent
     return {"oks": oks, "step": step, "calls": len(probe.trace), "trace": list(probe.trace),
             "raw": probe.raw, "fired_inv": probe.fired_inv, "internal": internal,
             "dyn": dyn_snapshot(api, obj.get_dynamics()), "one_dynamics_object": len(dyn_ids) <= 1,
-            "progress": progress}
+            "progress": progress, "fired_in_init": probe.fired_in_init,
+            "dkmax": memory_regime(variant, 2)["dkmax"]}
 
 
 _REF = {}
 
 
-def single_call(api, s, d, target, variant=0):
-    key = (api, s, d, target, variant)
+def single_call(api, s, d, target, variant=0, bath=None):
+    key = (api, s, d, target, variant, bath)
     if key not in _REF:
-        _REF[key] = run_history(api, s, d, [("c", target)], None, variant)
+        _REF[key] = run_history(api, s, d, [("c", target)], None, variant, bath=bath)
     return _REF[key]
 
 
-def hist_line(api, s, d, faults, ref, targets):
-    return "hist %s %s %s %s %s %s" % (api, rat(s), rat(d),
+def hist_line(api, dkmax, s, d, faults, ref, targets):
+    return "hist %s %s %s %s %s %s %s" % (api, "none" if dkmax is None else str(dkmax),
+                                          rat(s), rat(d),
                                        ",".join(faults) if faults else "-",
                                        rat(ref), " ".join(rat(t) for t in targets))
 
@@ -553,7 +609,7 @@ def correspondence(res, tier, rng):
             ref_t = max(targets)
             ref = single_call(api, s, d, ref_t, variant)
             same = same_dynamics(rec["dyn"], ref["dyn"]) and rec["step"] == ref["step"]
-            add(hist_line(api, s, d, [], ref_t, targets), hist_expect(rec, same),
+            add(hist_line(api, rec["dkmax"], s, d, [], ref_t, targets), hist_expect(rec, same),
                 {"kind": "history", "api": api, "start": s, "dt": d, "target_steps": ms,
                  "targets": targets, "variant": variant, "progress_type": progress,
                  "calls": [o[0] for o in ops]})
@@ -602,7 +658,8 @@ def correspondence(res, tier, rng):
                     continue
                 targets = [o[1] for o in ops if o[0] == "c"]
                 same = same_dynamics(rec["dyn"], ref["dyn"]) and rec["step"] == ref["step"]
-                add(hist_line(api, s, d, ["%d%s" % (rec["fired_inv"], "b" if base else "")],
+                add(hist_line(api, rec["dkmax"], s, d,
+                              ["%d%s" % (rec["fired_inv"], "b" if base else "")],
                               target, targets),
                     hist_expect(rec, same),
                     {"kind": "fault", "api": api, "start": s, "dt": d, "ops": ops,
@@ -612,6 +669,57 @@ def correspondence(res, tier, rng):
                 res.count("fault:%s:callable%d:%s%s" % (api, rec["trace"][rec["fired_inv"]][0],
                                                         "BaseException" if base else "Exception",
                                                         REGIME.get(variant, "")))
+
+    # (b') a transient fault of the BATH function (correlation function / spectral density),
+    # in every memory regime; dkmax=None: evaluated in every step
+    for api in ("tempo", "mft"):
+        bconf = [(4, 3, "corr"), (4, 4, "corr")]
+        if tier != "quick" or api == "tempo":
+            bconf += [(3, 0, "corr"), (3, 3, "sd")]
+        for m, variant, bath in bconf:
+            s_l, d_l = GRIDS[0]
+            s, d = float(s_l), float(d_l)
+            target = dec_sum(s_l, d_l, m)
+            ref = single_call(api, s, d, target, variant, bath)
+            for r in spread(ref["raw"], 6 if tier == "quick" else 30):
+                base = r % 2 == 1
+                progress = PROGRESS_TYPES[r % 3]
+                ops = [("c", target), ("g",), ("c", target)]
+                rec = run_history(api, s, d, ops, r, variant, base, progress, bath)
+                name = {"tempo": "Tempo", "mft": "MeanFieldTempo"}[api]
+                same = same_dynamics(rec["dyn"], ref["dyn"]) and rec["step"] == ref["step"]
+                if rec["fired_in_init"]:
+                    # the failure happened while the networks were first built (not a step of the
+                    # model): judged by the property text alone — fails again, or same result
+                    res.count("bathfault:%s:during-initialize" % api)
+                    if rec["oks"] == "01" and not same:
+                        res.fail("retry:%s:bath-%s-during-initialize" % (name, bath),
+                                 {"api": name, "start_time": s, "dt": d, "end_time": target,
+                                  "variant": variant, "failing_bath_function": bath,
+                                  "raw_user_call_index_that_raises_once": r,
+                                  "progress_type": progress,
+                                  "max_state_difference": max_diff(rec["dyn"], ref["dyn"])})
+                    continue
+                if rec["fired_inv"] is None:
+                    continue
+                if rec["internal"] is not None:
+                    res.disagree("internal error in a call after a transient bath-function "
+                                 "failure: " + rec["internal"],
+                                 {"api": api, "variant": variant, "bath": bath, "raw_index": r})
+                    continue
+                add(hist_line(api, rec["dkmax"], s, d,
+                              ["%d%s" % (rec["fired_inv"], "b" if base else "")], target,
+                              [target, target]),
+                    hist_expect(rec, same),
+                    {"kind": "bathfault", "api": api, "start": s, "dt": d, "ops": ops,
+                     "raw_index": r, "variant": variant, "bath": bath, "base_exception": base,
+                     "progress_type": progress})
+                res.count("bathfault:%s:%s%s" % (api, bath, REGIME.get(variant, ":cutoff")))
+    # PT-TEMPO with a failing bath function: judged by the property text (no fault model)
+    for mem in (dict(dkmax=None), dict(dkmax=2), dict(dkmax=2, add_correlation_time=0.15)):
+        oracle_pt_bath(res, 4, mem, "corr", 3 if tier == "quick" else 20)
+        res.count("bathfault:pt:%s" % ("no-cutoff" if mem["dkmax"] is None else
+                                       "act" if "add_correlation_time" in mem else "cutoff"))
 
     # (c) PT-TEMPO histories
     pt_hist = ["".join(p) for L in (1, 2, 3) for p in itertools.product("cg", repeat=L)]
@@ -719,18 +827,28 @@ def restart_payload(pre, post, m, n, rec):
 # spec-level oracles on the real code
 # ---------------------------------------------------------------------------
 
-def oracle_retry(res, api, s_l, d_l, m, variant, indices=None, base=False):
-    """a transient failure of a user callable; the repeated call must fail again or give the
-    no-failure dynamics"""
+def spread(n, k):
+    """about k indices spread over range(n), always including the last ones"""
+    if n <= k:
+        return list(range(n))
+    return sorted(set([int(i * (n - 1) / (k - 1)) for i in range(k)] + [n - 1, n - 2]))
+
+
+def oracle_retry(res, api, s_l, d_l, m, variant, indices=None, base=False, bath=None):
+    """a transient failure of a user callable (with `bath`: of the bath correlation function /
+    spectral density); the repeated call must fail again or give the no-failure dynamics"""
     s, d = float(s_l), float(d_l)
     target = dec_sum(s_l, d_l, m)
-    ref = single_call(api, s, d, target, variant)
+    ref = single_call(api, s, d, target, variant, bath)
     found = 0
+    if indices is None and bath:
+        indices = list(reversed(spread(ref["raw"], 14)))
     # late steps first: beyond the memory cut-off the damage is silent
     for r in (indices if indices is not None else reversed(range(ref["raw"]))):
         progress = PROGRESS_TYPES[r % 3]
-        rec = run_history(api, s, d, [("c", target), ("c", target)], r, variant, base, progress)
-        if rec["fired_inv"] is None:
+        rec = run_history(api, s, d, [("c", target), ("c", target)], r, variant, base, progress,
+                          bath)
+        if rec["fired_inv"] is None and not rec["fired_in_init"]:
             continue
         name = {"tempo": "Tempo", "mft": "MeanFieldTempo"}[api]
         if rec["oks"][:1] == "1":
@@ -748,22 +866,28 @@ def oracle_retry(res, api, s_l, d_l, m, variant, indices=None, base=False):
             continue
         if rec["oks"][:1] != "0":
             continue
-        cid = rec["trace"][rec["fired_inv"]][0]
+        cid = 9 if rec["fired_in_init"] else rec["trace"][rec["fired_inv"]][0]
         if rec["oks"][1:] == "0":
             continue                                   # failed again: allowed
+        if rec["fired_in_init"] and rec["oks"][1:] == "x":
+            continue      # the networks were never built: the repeated call fails again
         ok = rec["oks"][1:] == "1" and same_dynamics(rec["dyn"], ref["dyn"])
         if not ok:
             what = {("tempo", 0): "system-propagators",
                     ("mft", 0): "field_eom-derivative", ("mft", 1): "system-propagators",
-                    ("mft", 2): "field_eom-after-network-update"}[(api, cid)]
+                    ("mft", 2): "field_eom-after-network-update"}.get((api, cid))
+            if cid == 9:
+                what = "bath-%s%s" % ({"corr": "correlation-function", "sd": "spectral-density"}
+                                      .get(bath, "correlations"),
+                                      "-during-initialize" if rec["fired_in_init"] else "")
             res.fail("retry:%s:%s%s%s" % (name, what, ":BaseException" if base else "",
                                           REGIME.get(variant, "")),
                      {"api": name, "start_time": s, "dt": d, "end_time": target, "variant": variant,
-                      "progress_type": progress,
+                      "progress_type": progress, "failing_bath_function": bath,
                       "raised_class": "a BaseException subclass that is not an Exception "
                                       "(like KeyboardInterrupt)" if base else "an Exception subclass",
                       "raw_user_call_index_that_raises_once": r,
-                      "failed_in": what, "step_argument": rec["trace"][rec["fired_inv"]][1],
+                      "failed_in": what,
                       "retry_outcome": rec["internal"] or "returned",
                       "times_after_retry": rec["dyn"]["times"],
                       "times_without_failure": ref["dyn"]["times"],
@@ -771,6 +895,63 @@ def oracle_retry(res, api, s_l, d_l, m, variant, indices=None, base=False):
                       "how": "%s.compute(%r) with a user callable raising once at its %d-th "
                              "call, then compute(%r) again; compare with a fresh object "
                              "computed without failure" % (name, target, r, target)})
+            found += 1
+    return found
+
+
+def pt_bath_run(n, mem, at, bath="corr"):
+    """PtTempo whose bath function raises once at raw call `at`; compute(), on failure
+    get_process_tensor() again; returns (raw calls, failed?, outcome, dynamics from the PT)"""
+    import oqupy
+    from oqupy import operators as op
+    probe = Probe(at, False, bath)
+    par = oqupy.TempoParameters(dt=0.1, epsrel=1e-4, **mem)
+    ptt = oqupy.PtTempo(bath=make_bath(probe), start_time=0.0, end_time=dec_sum("0.0", "0.1", n),
+                        parameters=par)
+    probe.armed = True
+    failed, outcome, states = False, "returned", None
+    try:
+        ptt.compute(progress_type="silent")
+    except FAULTS:
+        failed = True
+    try:
+        pt = ptt.get_process_tensor(progress_type="silent")
+        probe.armed = False
+        states = oqupy.compute_dynamics(system=oqupy.System(0.5 * op.sigma("x")),
+                                        process_tensor=pt, initial_state=op.spin_dm("z+"),
+                                        progress_type="silent").states
+    except FAULTS:
+        outcome = "failed again"
+    except Exception as e:                          # noqa: BLE001
+        outcome = "failed again (%s)" % type(e).__name__
+    return probe.raw, failed, outcome, states
+
+
+_PT_REF = {}
+
+
+def oracle_pt_bath(res, n, mem, bath="corr", k=6):
+    """PT-TEMPO: after a transient failure of the bath function the repeated call must fail
+    again or give the undisturbed process tensor (judged by the dynamics it produces, 1e-8;
+    the MPO tensors themselves are only fixed up to a gauge)"""
+    key = (n, tuple(sorted(mem.items())), bath)
+    if key not in _PT_REF:
+        _PT_REF[key] = pt_bath_run(n, mem, None, bath)
+    nraw, _, _, ref = _PT_REF[key]
+    found = 0
+    for at in spread(nraw, k):
+        _, failed, outcome, states = pt_bath_run(n, mem, at, bath)
+        if not failed or states is None:
+            continue
+        if states.shape != ref.shape or np.abs(states - ref).max() > 1e-8:
+            res.fail("retry:PtTempo:bath-%s%s" % ("correlation-function" if bath == "corr"
+                                                  else "spectral-density",
+                                                  "" if mem.get("dkmax") else ":no-memory-cutoff"),
+                     {"api": "PtTempo", "num_steps": n, "memory": mem, "failing_bath_function": bath,
+                      "raw_user_call_index_that_raises_once": at,
+                      "max_state_difference_of_dynamics_from_the_process_tensor":
+                          float(np.abs(states - ref).max()) if states.shape == ref.shape
+                          else "shapes differ"})
             found += 1
     return found
 
@@ -879,6 +1060,14 @@ def search(res, rng=None):
         # the other memory regimes: no cut-off, cut-off with add_correlation_time
         oracle_retry(res, api, "0.0", "0.1", 5, 3, base=(api == "tempo"))
         oracle_retry(res, api, "0.0", "0.1", 5, 4, base=(api == "mft"))
+        # failing bath functions, every memory regime
+        oracle_retry(res, api, "0.0", "0.1", 5, 3, bath="corr")
+        oracle_retry(res, api, "0.0", "0.1", 5, 4, bath="corr", base=True)
+        oracle_retry(res, api, "0.0", "0.1", 4, 0, bath="corr")
+        oracle_retry(res, api, "0.0", "0.1", 4, 3, bath="sd")
+    for mem in (dict(dkmax=None), dict(dkmax=2), dict(dkmax=2, add_correlation_time=0.15)):
+        oracle_pt_bath(res, 5, mem, "corr", 10)
+    oracle_pt_bath(res, 4, dict(dkmax=None), "sd", 6)
     # read-only getters between compute calls
     for (pre, post, ops) in [((), (), [2, "d", 4]), ((1,), (2,), [0, "d", 3]),
                              ((), (), [2, "r", 4]), ((), (), [2, "m", 4]),
@@ -932,8 +1121,14 @@ def replay_case(res, payload):
         s, d, target = fi["start_time"], fi["dt"], fi["end_time"]
         r = fi["raw_user_call_index_that_raises_once"]
         ref = single_call(api, s, d, target, fi.get("variant", 0))
+        if fi["api"] == "PtTempo":
+            n0 = len(res.failing)
+            oracle_pt_bath(res, fi["num_steps"], fi["memory"], fi["failing_bath_function"], 10)
+            return len(res.failing) > n0
+        bath = fi.get("failing_bath_function")
+        ref = single_call(api, s, d, target, fi.get("variant", 0), bath)
         rec = run_history(api, s, d, [("c", target), ("c", target)], r, fi.get("variant", 0),
-                          ":BaseException" in key, fi.get("progress_type", "silent"))
+                          ":BaseException" in key, fi.get("progress_type", "silent"), bath)
         if rec["oks"][:1] == "0" and rec["oks"][1:] != "0" and not (
                 rec["oks"][1:] == "1" and same_dynamics(rec["dyn"], ref["dyn"])):
             res.fail(key, fi)
@@ -978,7 +1173,8 @@ def run(tier, seed, replay):
     res.assumptions = [
         "a user callable's failure is an exception of ANY class (Exception or other BaseException) "
         "raised by the callable (not a crash of the process); it may happen at any of its "
-        "invocations, any number of times",
+        "invocations, any number of times; the bath correlation function / spectral density "
+        "evaluated by the influence functions is one of the user callables (id 9)",
         "PtTebdBackend.compute_traces: a control-flow path that returns without recomputing is "
         "taken whenever traces are still present (worst case; pinned by the correspondence)",
         "the real functions are deterministic: equal abstract states (step counter, log of "
@@ -989,9 +1185,12 @@ def run(tier, seed, replay):
         "TIBaseBackend.initialise records three states — both pinned by the correspondence",
     ]
     res.not_shown = [
-        "failures raised inside the bath correlation function (influence evaluation inside "
-        "compute_system_step / PtTempoBackend.compute_step) are outside the fault quantifier "
-        "(Hamiltonian, rate, Lindblad operator, field equation) and not covered",
+        "bath-function failures while the networks are first built (initialize) and in PT-TEMPO "
+        "are not part of the fault model: they are judged on the real code by the property text "
+        "only (the repeated call fails again or gives the undisturbed result); observed: after "
+        "such a failure during initialize a Tempo/MeanFieldTempo object raises on every later "
+        "call, and a PtTempo with add_correlation_time raises an AssertionError — never a "
+        "silently different result",
         "KeyboardInterrupt/asynchronous interruption between two statements of compute() "
         "itself (after compute_step returned, before dynamics.add) is not modelled",
         "PtTebd restart: time stamps of the restarted object are start_time' + dt*(k-m), equal "
